@@ -37,13 +37,29 @@ def step_id(name: str | None) -> str:
 
 
 _interned: dict[str, int] = {}
+_auto_rank: dict[str, int] = {}
+
+
+def _auto_ids() -> dict[str, int]:
+    """auto-generated waiter ids (`waiter_<module>.<type>_<str(requirements)>`) of the harness's event types: numbered in
+    STRING order (the implementation sorts waiters by waiter_id when it re-pings them), after every explicit `wNN`"""
+    if not _auto_rank:
+        reqs = [{}] + [{"k": v} for v in (None, 0, 1, 2, 3, 4, 5)]
+        names = sorted(f"waiter_{t.__module__}.{t.__name__}_{r}" for t in ET.TYPES.values() for r in reqs) if isinstance(ET.TYPES, dict) \
+            else sorted(f"waiter_{t.__module__}.{t.__name__}_{r}" for t in ET.TYPES for r in reqs)
+        for i, n in enumerate(names):
+            _auto_rank[n] = 100 + i
+    return _auto_rank
 
 
 def waiter_id(w: str) -> str:
     if len(w) == 3 and w[0] == "w" and w[1:].isdigit():
         return str(int(w[1:]))
+    auto = _auto_ids()
+    if w in auto:
+        return str(auto[w])
     if w not in _interned:
-        _interned[w] = 100 + len(_interned)
+        _interned[w] = 5000 + len(_interned)
     return str(_interned[w])
 
 
